@@ -428,7 +428,12 @@ class ExceptionTrace(object):
 
     def _escape(self, text):  # type: (str) -> str
         # An exception message is data: tags in it are displayed, not interpreted
-        return text.replace("<", "\\<")
+        text = text.replace("<", "\\<")
+        if text.endswith("\\"):
+            # A backslash directly before the closing tag would escape that tag
+            text += " "
+
+        return text
 
     def _render_line(
         self, io, line, new_line=False, indent=0
